@@ -302,3 +302,6 @@ class Check:
     budget: Dict[str, tuple] = field(default_factory=lambda: {"quick": (4, 50), "thorough": (16, 500)})
     exhaustive: bool = False
     threads: int = 2
+    # custom(ctx, tier, seed, shard, nshards, n): a check that drives itself (stateful machines, sub-process
+    # differentials); it appends to ctx.violations / calls ctx.case like the generic drivers do
+    custom: Optional[Callable] = None
